@@ -26,6 +26,7 @@ JudgeValue(r) ==
      \cup (IF r.json = <<34>> \o v.txt \o <<34>> THEN {} ELSE {"C18.json-text"})
      \cup (IF r.unm.st = "ok" /\ SameValue(r.unm.v, v) THEN {} ELSE {"C18.json-roundtrip"})
      \cup (IF r.pstr = v.txt THEN {} ELSE {"C18.path-string-differs"})
+     \cup (IF r.pstz = v.txt THEN {} ELSE {"C18.path-string-differs-under-WithTZ"})
 
 (* the inner text of a JSON string token without escapes, or "none" *)
 IsPlainString(d) == Len(d) >= 2 /\ d[1] = 34 /\ d[Len(d)] = 34 /\ \A i \in 2..(Len(d) - 1) : d[i] # 34 /\ d[i] # 92
@@ -42,9 +43,11 @@ JudgeHostile(r) ==
 JudgeCommute(r) ==
   LET v == r.val
       up == Cast(v, "tstz", TRUE, r.zone)
-  IN IF ~up.ok THEN {"skip.C18"}                     \* the local time does not exist (or twice) in the zone
+      once == LocalExistsOnce(r.zone, DayNumber(v.y, v.mo, v.d), SecOfDay(v))
+  IN IF ~up.ok THEN {"skip.C18"}                     \* zone rule not modelled for that year
      ELSE (IF r.up.st = "ok" /\ SameValue(r.up.v, up.v) THEN {} ELSE {"C18.to-timestamptz"})
-          \cup (IF r.down.st = "ok" /\ SameValue(r.down.v, v) THEN {} ELSE {"C18.zone-roundtrip"})
+          \cup (IF ~once THEN {}                     \* the local time does not exist (or exists twice) in the zone
+                ELSE IF r.down.st = "ok" /\ SameValue(r.down.v, v) THEN {} ELSE {"C18.zone-roundtrip"})
 
 Judge(r) ==
   CASE r.kind = "value" -> JudgeValue(r) [] r.kind = "hostile" -> JudgeHostile(r) [] r.kind = "commute" -> JudgeCommute(r)
